@@ -160,8 +160,8 @@ func runK8sLifeCase(w *core.WorkerCtx, k int, prop string) *core.CaseResult {
 	// B's name sorts before or after A's
 	bName := r.PickS("prom-0b", "prom-b")
 	res.Sig = fmt.Sprintf("k8s/%s/%v/%s", prop, steps, bName)
-	if prop == "C19" && k%4 == 3 {
-		runK8sTwoNamespaces(r, res)
+	if k%4 == 3 {
+		runK8sTwoNamespaces(r, res, prop)
 		return res
 	}
 	bGap := r.Intn(3) == 0
@@ -232,7 +232,7 @@ func describeShards(m interface {
 	return sb.String(), nil
 }
 
-func runK8sTwoNamespaces(r *core.Rng, res *core.CaseResult) {
+func runK8sTwoNamespaces(r *core.Rng, res *core.CaseResult, prop string) {
 	nA, nB := 1+r.Intn(3), 1+r.Intn(3)
 	maskA, maskB := r.Intn(1<<uint(nA)), r.Intn(1<<uint(nB))
 	build := func(withB bool) (string, []string, error) {
@@ -290,6 +290,28 @@ func runK8sTwoNamespaces(r *core.Rng, res *core.CaseResult) {
 		if d == alone {
 			found = true
 		}
+	}
+	if prop == "C18" {
+		// the listing itself: each manager lists the pods of its own StatefulSet, in ordinal order, with their own
+		// addresses and readiness
+		want := func(n, mask int, ipBase string) string {
+			var sb strings.Builder
+			for k := 0; k < n; k++ {
+				if mask&(1<<uint(k)) != 0 {
+					fmt.Fprintf(&sb, "prom-%d ready=true http://%s.%d:8080/ | ", k, ipBase, k+10)
+				} else {
+					fmt.Fprintf(&sb, "prom-%d ready=false  | ", k)
+				}
+			}
+			return sb.String()
+		}
+		wa, wb := want(nA, maskA, "10.1.0"), want(nB, maskB, "10.2.0")
+		ok := len(both) == 2 && ((both[0] == wa && both[1] == wb) || (both[0] == wb && both[1] == wa))
+		if !ok {
+			res.Violate("C18/all-namespaces/shards-of-another-namespace-listed", "two installations of one chart (team-a: %d pods, team-b: %d pods) under a manager for all namespaces: the shard managers list %v, expected [%s] and [%s]", nA, nB, both, wa, wb)
+			res.Witness = map[string]interface{}{"replicas_a": nA, "replicas_b": nB, "listed": both}
+		}
+		return
 	}
 	if !found || len(both) != 2 {
 		res.Violate("C19/k8s/shards-depend-on-statefulset-in-another-namespace", "StatefulSet team-a/prom alone lists its shards as [%s]; next to team-b/prom (same chart) the managers list %v", alone, both)
